@@ -112,7 +112,7 @@ mod verif_c06r {
     /// Styled rectangle on a native target, every position/size/stroke width <= 4096, three alignments,
     /// colours present/absent: the pixel map at an arbitrary probe point is the one the statement
     /// prescribes, nothing is painted outside the styled bounding box. draw_styled is loop-free.
-    //@harness prop=C06,C02,C08 kind=lemma tier=quick class=P fns=src/primitives/rectangle/styled.rs::Rectangle::draw_styled;src/primitives/rectangle/styled.rs::Rectangle::styled_bounding_box
+    //@harness prop=C06,C02,C08,C01 kind=lemma tier=quick class=P fns=src/primitives/rectangle/styled.rs::Rectangle::draw_styled;src/primitives/rectangle/styled.rs::Rectangle::styled_bounding_box
     #[kani::proof]
     fn c06_rectangle_draw_probe() {
         let r = any_rect(DOM);
@@ -181,6 +181,43 @@ mod verif_c06r {
         b.draw_iter(styled.pixels()).unwrap();
         assert!(a.0.last == b.0.last);
         kani::cover!(a.0.last.is_some() && sa.size.width == 3 && sa.size.height == 2);
+    }
+
+    /// pixels() of a styled rectangle as a transition system (C01 third path, unbounded for opaque colours):
+    /// the constructor iterates the points of stroke_area() (nothing for a transparent style) and remembers
+    /// fill_area() and both colours; a step takes the next point p of that iteration and yields it with the
+    /// fill colour if fill_area() contains it and the stroke colour otherwise. With c06_rectangle_draw_probe
+    /// (draw() paints exactly this colour function of the two areas) and the rectangle::Points contracts of
+    /// C16 (each point of the area once) pixels() fed to draw_iter equals draw().
+    //@harness prop=C01,C06 kind=step tier=quick class=I bound="both colours present in the step (a transparent colour makes next() skip points: bounded companion c06_rectangle_pixels_equals_draw)" fns=src/primitives/rectangle/styled.rs::StyledPixelsIterator::new;src/primitives/rectangle/styled.rs::StyledPixelsIterator::next
+    #[kani::proof]
+    #[kani::unwind(4)]
+    fn c01_rectangle_pixels_step() {
+        let r = any_rect(DOM);
+        let style = any_style(DOM as u32);
+        let styled = r.into_styled(style);
+        let n = StyledPixelsIterator::new(&r, &style);
+        let want_iter = if style.is_transparent() { Points::empty() } else { styled.stroke_area().points() };
+        assert!(n.iter == want_iter && n.fill_area == styled.fill_area());
+        assert!(n.fill_color == style.fill_color && n.stroke_color == style.stroke_color);
+        // step from an arbitrary state of the point iterator
+        let pts = Points::verif_any();
+        kani::assume(pts.verif_inv());
+        let (fc, sc) = (Gray8::new(50), Gray8::new(200));
+        let fa = any_rect(DOM);
+        let mut it = StyledPixelsIterator { iter: pts.clone(), stroke_color: Some(sc), fill_area: fa, fill_color: Some(fc) };
+        let mut peek = pts.clone();
+        let r = it.next();
+        match peek.next() {
+            None => assert!(r.is_none()),
+            Some(p) => {
+                assert!(r == Some(Pixel(p, if sp::contains(&fa, p) { fc } else { sc })));
+                assert!(it.iter == peek);
+            }
+        }
+        assert!(it.fill_area == fa && it.fill_color == Some(fc) && it.stroke_color == Some(sc));
+        kani::cover!(r.is_some());
+        kani::cover!(r.is_none());
     }
 
     //@harness prop=C06 kind=canary tier=quick class=P expect=fail
@@ -411,8 +448,11 @@ mod verif_c06e {
     };
 
     fn draw_probe_tiny(fill: bool, stroke: bool) {
+        draw_probe_sized(fill, stroke, 3)
+    }
+    fn draw_probe_sized(fill: bool, stroke: bool, max: u32) {
         let (w, h): (u32, u32) = (kani::any(), kani::any());
-        kani::assume(w <= 3 && h <= 3);
+        kani::assume(w <= max && h <= max);
         let e = Ellipse::new(Point::new(0, 0), Size::new(w, h));
         let mut style = any_style(1);
         style.fill_color = if fill { Some(Gray8::new(50)) } else { None };
@@ -431,6 +471,30 @@ mod verif_c06e {
         assert!(t.0.last == expected);
         assert!(!t.0.escaped);
         kani::cover!(expected.is_some());
+    }
+    /// Quick variants of the three arms of Ellipse::draw_styled on 0..=2 x 0..=2 ellipses (EllipseContains::contains
+    /// used through its contract): enough to decide which scanline generator over which area each arm uses
+    /// (an inside stroke of width 1 empties the fill area of a 2x2 ellipse).
+    //@harness prop=C06,C02 kind=bounded tier=quick class=P bound="ellipse fill only; size <= 2x2, stroke width 0..=1, three alignments, position (0,0)" timeout=900 kani="--no-assertion-reach-checks" unwindset="try_fold=5;draw_styled=5;ellipse::points::Scanlines as core::iter::Iterator>::next=5" fns=src/primitives/ellipse/styled.rs::Ellipse::draw_styled
+    #[kani::proof]
+    #[kani::unwind(6)]
+    #[kani::stub(crate::primitives::ellipse::EllipseContains::contains, crate::primitives::ellipse::verif_ell::contains_by_contract)]
+    fn c06_ellipse_draw_arm_fill_only() {
+        draw_probe_sized(true, false, 2);
+    }
+    //@harness prop=C06,C02 kind=bounded tier=quick class=P bound="ellipse stroke only; size <= 2x2, stroke width 1, three alignments, position (0,0)" timeout=900 kani="--no-assertion-reach-checks" unwindset="try_fold=5;draw_styled=5;ellipse::points::Scanlines as core::iter::Iterator>::next=5"
+    #[kani::proof]
+    #[kani::unwind(6)]
+    #[kani::stub(crate::primitives::ellipse::EllipseContains::contains, crate::primitives::ellipse::verif_ell::contains_by_contract)]
+    fn c06_ellipse_draw_arm_stroke_only() {
+        draw_probe_sized(false, true, 2);
+    }
+    //@harness prop=C06,C02 kind=bounded tier=quick class=P bound="ellipse stroke and fill; size <= 2x2, stroke width 1, three alignments, position (0,0)" timeout=900 kani="--no-assertion-reach-checks" unwindset="try_fold=5;draw_styled=5;ellipse::points::Scanlines as core::iter::Iterator>::next=5"
+    #[kani::proof]
+    #[kani::unwind(6)]
+    #[kani::stub(crate::primitives::ellipse::EllipseContains::contains, crate::primitives::ellipse::verif_ell::contains_by_contract)]
+    fn c06_ellipse_draw_arm_stroke_and_fill() {
+        draw_probe_sized(true, true, 2);
     }
     /// Ellipse::draw_styled, fill-only arm (which scanline generator over which area)
     //@harness prop=C06,C02 kind=bounded tier=thorough class=P bound="ellipse fill only; size <= 3x3, stroke width 0..=1, position (0,0)" timeout=3000 unwindset="try_fold=6;draw_styled=6;ellipse::points::Scanlines as core::iter::Iterator>::next=6" fns=src/primitives/ellipse/styled.rs::Ellipse::draw_styled
